@@ -9,7 +9,15 @@ W9 = "wannierberri/w90files/"
 DKR = "wannierberri/data_K/data_K_R.py"
 DKS = "wannierberri/data_K/data_K_soc.py"
 DKK = "wannierberri/data_K/data_K_k.py"
+SHR = "wannierberri/system/system_hr.py"
+STB = "wannierberri/system/system_tb.py"
 MUTANTS = [
+    dict(prop="C18", name="wcc reader: revert fix", file=SHR, old="n_even = (data.shape[0] + 1) // 2", new="n_even = data.shape[0] // 2"),
+    dict(prop="C18", name="wcc reader: even/odd swapped", file=SHR, old="    data_2[::2] = data[:n_even]\n    data_2[1::2] = data[n_even:]", new="    data_2[1::2] = data[:n_even]\n    data_2[::2] = data[n_even:]"),
+    dict(prop="C18", name="hr writer: centre file odd rows first for n=5", file=SHR, old="    for i in data[::2]:", new="    for i in data[1::2] if len(data) == 5 else data[::2]:"),
+    dict(prop="C18", name="wcc writer: drops last odd row", file=SHR, old="    for i in data[1::2]:\n        r.write(f\"{(i[0] if np.abs(i[0]) > 1e-7 else 0.0):10} {(i[1] if np.abs(i[1]) > 1e-7 else 0.0):10} {(i[2] if np.abs(i[2]) > 1e-7 else 0.0):10}\\n\")\n    r.close()\n\n\ndef read_WCC", new="    for i in data[1:-1:2]:\n        r.write(f\"{(i[0] if np.abs(i[0]) > 1e-7 else 0.0):10} {(i[1] if np.abs(i[1]) > 1e-7 else 0.0):10} {(i[2] if np.abs(i[2]) > 1e-7 else 0.0):10}\\n\")\n    r.close()\n\n\ndef read_WCC"),
+    dict(prop="C18", name="tb writer: m,n order swapped", file=STB, old="                for n in system.range_wann for m in system.range_wann)", new="                for m in system.range_wann for n in system.range_wann)"),
+    dict(prop="C18", name="PRESERVING: wcc reader with -(-n//2)", file=SHR, old="n_even = (data.shape[0] + 1) // 2", new="n_even = -(-data.shape[0] // 2)", expect="ok"),
     dict(prop="C33", name="soc: revert fix (parallel)", file=DKS, old="expdK_down = self.data_K_down.expdK_corners_parallel", new="expdK_down = self.data_K_up.expdK_corners_parallel"),
     dict(prop="C33", name="soc: down block uses up Ham_R", file=DKS, old="_Ham_R = self.data_K_down.Ham_R[:, :, :] * expdK_down[iv][:, None, None]", new="_Ham_R = self.data_K_up.Ham_R[:, :, :] * expdK_down[iv][:, None, None]"),
     dict(prop="C33", name="soc: down block placed at [::2,1::2]", file=DKS, old="                    _HH_K_full[:, 1::2, 1::2] = self.data_K_down.rvec.R_to_k(_Ham_R, hermitian=True)", new="                    _HH_K_full[:, 1::2, ::2] = self.data_K_down.rvec.R_to_k(_Ham_R, hermitian=True)"),
